@@ -233,3 +233,142 @@ func varcharN(n int) {
 
 func VF_C06_Varchar1() { varcharN(1) }
 func VF_C06_Varchar2() { varcharN(2) }
+
+// ---- UPDATE / DELETE: rows changed are exactly those the statement's meaning defines ----
+
+type drow struct{ a, b, tag int32 }
+
+func dmlSetup() (*sysx.DB, []drow) {
+	db := sysx.Open("vfc06", 32)
+	db.CreateTable("t1", []sysx.ColDef{{"a", types.Integer, index_constants.IndexKindSkipList}, {"b", types.Integer, index_constants.IndexKindInvalid}, {"tag", types.Integer, index_constants.IndexKindInvalid}})
+	rows := []drow{{vf.I32(), vf.I32(), 1}, {vf.I32(), vf.I32(), 2}}
+	for _, r := range rows {
+		vf.Assume(r.a != 2147483647 && r.a != -2147483648 && r.b != 2147483647 && r.b != -2147483648)
+		_, _, ab := db.Auto(sysx.Insert("t1", []string{"a", "b", "tag"}, []types.Value{types.NewInteger(r.a), types.NewInteger(r.b), types.NewInteger(r.tag)}))
+		vf.Assert(!ab, "insert is not aborted")
+	}
+	if vf.Choose(2) == 1 {
+		db.UpdateStats("t1")
+		vf.Note("stats", "updated")
+	}
+	return db, rows
+}
+
+// the table (through a plain sequential scan) holds exactly the reference rows, and the index on a agrees with it
+func dmlAudit(db *sysx.DB, want []drow, what string) {
+	got, sc, ab := db.SelectAll("t1")
+	vf.Assert(!ab, what+": scan is not aborted")
+	vf.Assert(len(got) == len(want), what+": the table holds as many rows as the reference")
+	for _, w := range want {
+		n := 0
+		for _, g := range got {
+			if g.GetValue(sc, 2).ToInteger() == w.tag {
+				n++
+				vf.Assert(g.GetValue(sc, 0).ToInteger() == w.a && g.GetValue(sc, 1).ToInteger() == w.b, what+": row holds the reference values")
+			}
+		}
+		vf.Assert(n == 1, what+": every reference row is there exactly once")
+	}
+	db.IndexAudit("t1", 0, what)
+	vf.Cover("c06.dml.audited")
+}
+
+func VF_C06_Update_NonKey() {
+	db, rows := dmlSetup()
+	k := pickConj(2, 2)
+	nb := vf.I32()
+	vf.Assume(nb != 2147483647 && nb != -2147483648)
+	_, _, ab := db.Auto(sysx.Update("t1", []string{"b"}, []types.Value{types.NewInteger(nb)}, k.expr()))
+	vf.Assert(!ab, "update of a lone transaction is not aborted")
+	for i := range rows {
+		if k.ref(rows[i].a, rows[i].b) {
+			rows[i].b = nb
+			vf.Cover("c06.update.match")
+		}
+	}
+	dmlAudit(db, rows, "after UPDATE SET b")
+}
+
+func VF_C06_Update_Key() {
+	db, rows := dmlSetup()
+	k := pickConj(2, 1)
+	na := vf.I32()
+	vf.Assume(na != 2147483647 && na != -2147483648)
+	_, _, ab := db.Auto(sysx.Update("t1", []string{"a"}, []types.Value{types.NewInteger(na)}, k.expr()))
+	vf.Assert(!ab, "update of a lone transaction is not aborted")
+	for i := range rows {
+		if k.ref(rows[i].a, rows[i].b) {
+			rows[i].a = na
+			vf.Cover("c06.update.match")
+		}
+	}
+	dmlAudit(db, rows, "after UPDATE SET a")
+}
+
+func VF_C06_Delete() {
+	db, rows := dmlSetup()
+	k := pickConj(2, 2)
+	_, _, ab := db.Auto(sysx.Delete("t1", k.expr()))
+	vf.Assert(!ab, "delete of a lone transaction is not aborted")
+	var left []drow
+	for _, r := range rows {
+		if k.ref(r.a, r.b) {
+			vf.Cover("c06.delete.match")
+		} else {
+			left = append(left, r)
+		}
+	}
+	dmlAudit(db, left, "after DELETE")
+}
+
+// UPDATE of one column of a wide row on a nearly full page: three rows of ~1.3 KB fill the first page, then
+// UPDATE t2 SET s = <longer string> WHERE a = k grows one of them by a chosen amount (fits / does not fit:
+// the row then has to move to another page). Every row must read back with its reference values.
+func VF_C06_GrowUpdateFullPage() {
+	db := sysx.Open("vfc06", 32)
+	db.CreateTable("t2", []sysx.ColDef{{"a", types.Integer, index_constants.IndexKindInvalid}, {"s", types.Varchar, index_constants.IndexKindInvalid}, {"t", types.Varchar, index_constants.IndexKindInvalid}})
+	mk := func(n int, c byte) string {
+		b := make([]byte, n)
+		for i := range b {
+			b[i] = c
+		}
+		return string(b)
+	}
+	type wrow struct {
+		a    int32
+		s, t string
+	}
+	rows := []wrow{{1, "s1", mk(1300, 'x')}, {2, "s2", mk(1300, 'y')}, {3, "s3", mk(1300, 'z')}}
+	for _, r := range rows {
+		_, _, ab := db.Auto(sysx.Insert("t2", []string{"a", "s", "t"}, []types.Value{types.NewInteger(r.a), types.NewVarchar(r.s), types.NewVarchar(r.t)}))
+		vf.Assert(!ab, "insert is not aborted")
+	}
+	which := vf.Choose(3)
+	grow := []int{20, 90, 130, 400}[vf.Choose(4)] // free space left on the page is ~100 bytes
+	vf.Note("grow-row", which)
+	vf.Note("grow-by", grow)
+	ns := mk(grow, 'n')
+	_, _, ab := db.Auto(sysx.Update("t2", []string{"s"}, []types.Value{types.NewVarchar(ns)}, sysx.Cmp("a", expression.Equal, types.NewInteger(rows[which].a), false)))
+	vf.Assert(!ab, "update of a lone transaction is not aborted")
+	rows[which].s = ns
+	got, sc, ab2 := db.SelectAll("t2")
+	vf.Assert(!ab2, "scan is not aborted")
+	vf.Assert(len(got) == 3, "the table still holds three rows")
+	for _, w := range rows {
+		n := 0
+		for _, g := range got {
+			if g.GetValue(sc, 0).ToInteger() == w.a {
+				n++
+				vf.Assert(g.GetValue(sc, 1).ToVarchar() == w.s, "column s reads back as last stored")
+				vf.Assert(g.GetValue(sc, 2).ToVarchar() == w.t, "column t (not named in the UPDATE) is unchanged")
+			}
+		}
+		vf.Assert(n == 1, "every row is there exactly once")
+	}
+	// the page accepts further work
+	_, _, ab3 := db.Auto(sysx.Insert("t2", []string{"a", "s", "t"}, []types.Value{types.NewInteger(4), types.NewVarchar("s4"), types.NewVarchar("t4")}))
+	vf.Assert(!ab3, "insert after the update is not aborted")
+	got2, _, _ := db.SelectAll("t2")
+	vf.Assert(len(got2) == 4, "the new row is there next to the old ones")
+	vf.Cover("c06.growupdate")
+}
